@@ -22,6 +22,7 @@ type AtClause struct {
 	Vars   []string // free-variable names the closure must capture
 	Callee string   // `at call NAME: assert E` (arguments are arg0, arg1, ...)
 	Unfold bool     // `at call NAME: unfold f(args)`
+	Assume bool     // `at call NAME: assume E`
 	Clause Clause
 }
 
@@ -356,6 +357,12 @@ func (P *Program) ParseContracts(mirrorDir, specDir string) error {
 					if strings.HasPrefix(r, "call ") {
 						// at call NAME: assert #label EXPR
 						r = strings.TrimSpace(strings.TrimPrefix(r, "call "))
+						if c := strings.IndexByte(r, ':'); c > 0 && strings.HasPrefix(strings.TrimSpace(r[c+1:]), "assume ") && strings.TrimSpace(r[:c]) != "dyn" {
+							// at call NAME: assume EXPR   (stated assumption about the arguments, listed in the evidence)
+							tgt.AtClosure = append(tgt.AtClosure, AtClause{Callee: strings.TrimSpace(r[:c]), Assume: true, Clause: mk(strings.TrimSpace(strings.TrimPrefix(strings.TrimSpace(r[c+1:]), "assume ")))})
+							last = &tgt.AtClosure[len(tgt.AtClosure)-1].Clause
+							continue
+						}
 						if c := strings.IndexByte(r, ':'); c > 0 && strings.HasPrefix(strings.TrimSpace(r[c+1:]), "unfold ") {
 							// at call NAME: unfold f(args)   (defining equation of a rec spec function, locals in scope)
 							tgt.AtClosure = append(tgt.AtClosure, AtClause{Callee: strings.TrimSpace(r[:c]), Unfold: true, Clause: mk(strings.TrimSpace(strings.TrimPrefix(strings.TrimSpace(r[c+1:]), "unfold ")))})
